@@ -10,6 +10,7 @@ replace (
 )
 
 require (
+	github.com/golang/snappy v0.0.1
 	github.com/lianxiangcloud/linkchain v0.0.0
 	github.com/pkg/errors v0.8.1
 )
@@ -32,7 +33,6 @@ require (
 	github.com/go-kit/kit v0.8.0 // indirect
 	github.com/go-stack/stack v1.8.0 // indirect
 	github.com/golang/protobuf v1.3.2 // indirect
-	github.com/golang/snappy v0.0.1 // indirect
 	github.com/google/uuid v1.0.0 // indirect
 	github.com/hashicorp/golang-lru v0.5.1 // indirect
 	github.com/matttproud/golang_protobuf_extensions v1.0.1 // indirect
